@@ -52,10 +52,12 @@ CHECK_DEADLOCK FALSE
 # deviations of the code as built, and the property of the design each one breaks (checked on the model
 # so that the finding signatures are tied to the specification, not only to the trace judgements)
 AS_BUILT = [
-    ("CharPrefixCleanupPath", "DeleteRemovesOnlyOwn", ["branch"], 3),
-    ("CharPrefixCleanupPath", "DeleteRemovesAllOwn", ["branch"], 3),
-    ("CleanupIgnoresDependents", "BranchIsolation", ["write", "branch", "cleanup"], 5),
-    ("CloneReadsHandleLocation", "RefResolves", ["write", "branch"], 4),
+    # (deviation, property (witness-printing variant), name set, op kinds, steps, clones)
+    ("CharPrefixCleanupPath", "DeleteRemovesOnlyOwnW", "a-ab-a/b", ["branch"], 3, 0),
+    ("CharPrefixCleanupPath", "DeleteRemovesAllOwnW", "a-ab-a/b", ["branch"], 3, 0),
+    ("CleanupIgnoresDependents", "BranchIsolationW", "a-ab", ["write", "branch", "cleanup", "clone"], 5, 1),
+    ("CleanupIgnoresDependents", "BranchIsolationOnBranchW", "a-ab", ["write", "branch", "cleanup"], 5, 0),
+    ("CloneReadsHandleLocation", "RefResolvesW", "a-ab", ["write", "branch"], 4, 0),
 ]
 
 
@@ -125,11 +127,17 @@ def pick(hists, cap, rnd):
             chosen.append(i)
         else:
             rest.append(i)
-    chosen += rest[: cap - len(chosen)]
+    # fill: half with histories that delete a branch or clean up (the operations that remove storage), half at random
+    hot = [i for i in rest if any(st["op"] in ("delete_branch", "cleanup") for st in hists[i][1:])]
+    need = cap - len(chosen)
+    take = hot[: need // 2]
+    chosen += take
+    taken = set(take)
+    chosen += [i for i in rest if i not in taken][: cap - len(chosen)]
     return [hists[i] for i in chosen], False
 
 
-def hist_to_scenario(hist, sid, rnd, source):
+def hist_to_scenario(hist, sid, rnd, source, via_mode=None):
     """TLC history -> driver scenario.  The handle that issues a reference operation (`via`) and the way a
     version is named (number / tag / "latest") are driver-level choices the design does not depend on; they
     are drawn with the run's seed."""
@@ -145,7 +153,9 @@ def hist_to_scenario(hist, sid, rnd, source):
             src, v = "".join(st["src"]), st["v"]
             s["mv"] = v
             r = rnd.random()
-            s["via"] = st["src"] if r < 0.45 else ["main"] if r < 0.8 else rnd.choice(handles)
+            s["via"] = st["src"] if r < 0.7 else ["main"] if r < 0.9 else rnd.choice(handles)
+            if via_mode is not None:      # witness scenarios pin the handle
+                s["via"] = ["main"] if via_mode == "main" else st["src"]
             tagged = sorted(t for t, x in tags.items() if x == (src, v))
             r = rnd.random()
             if tagged and r < 0.5:
@@ -193,11 +203,25 @@ def run(prop, tier, replay):
         "the handle that issues a reference operation and the spelling of a version reference (number / tag / latest) are seeded "
         "driver-level choices",
     ]
-    pool = cf.ThreadPoolExecutor(max_workers=6)
-    # 0. harness build (in the background while TLC works) ------------------------------------------
-    fut_build = pool.submit(vlib.harness_build, "vh_refs")
+    pool = cf.ThreadPoolExecutor(max_workers=8)
+    phases = {}
+    # 0. harness build -------------------------------------------------------------------------------
+    binary, build_s = vlib.harness_build("vh_refs")
+    phases["build"] = round(time.time() - t0, 1)
+    wd = vlib.workdir(f"{prop}-traces")
+    maxlen = 5 if quick else 6
+    nshards = 4 if quick else 8
+
+    # 3a. names: enumerate, record, validate (independent of everything else: started first) -----------
+    def names_shard(k):
+        tf = os.path.join(wd, f"names{k}.ndjson")
+        vlib.harness_run(binary, ["--mode", "names", "--alphabet", json.dumps(ALPHABET), "--maxlen", maxlen,
+                                  "--shard", k, "--shards", nshards, "--out", tf])
+        v = vlib.tlc_trace(f"{prop}-names-{k}", "Trace_LanceRefs", TRACE_CFG.format(mode="names"), tf, timeout=3000, xmx="6g")
+        return tf, v
 
     # 1. model-check the intended design; 1b. confirm the as-built deviations break the named property ---
+    gen_from_mc = {"all-a": 170, "all-b": 170} if quick else {"all-a": 1500, "all-b": 1500, "all-c": 1500}
     if quick:
         mc_runs = [("all-a", cfg("a-ab-a/b", 4, ALL_OPS), ALL_OPS), ("all-b", cfg("a/b-a/bc-b", 4, ALL_OPS), ALL_OPS)]
     else:
@@ -207,11 +231,16 @@ def run(prop, tier, replay):
                    ("bw4", cfg("a-ab-a/b-a/bc", 5, bw, nclones=0, tags=()), bw),
                    ("bwc", cfg("a-a/b-b", 6, bwc, nclones=0, tags=()), bwc),
                    ("btc", cfg("a-a/b-a/bc-b", 6, btc, nclones=2, tags=("t1", "t2")), btc)]
-    fut_mc = {name: pool.submit(vlib.tlc_mc, f"{prop}-{name}", "LanceRefs", c, 4, 3000) for name, c, _ in mc_runs}
+    # the exhaustive runs also print one history per distinct final state (GenPrint), see step 2
+    def with_gen(c):
+        return c.replace("INVARIANTS " + ALL_INVS, "INVARIANTS " + ALL_INVS + " GenPrint")
+    fut_mc = {name: pool.submit(vlib.tlc_mc, f"{prop}-{name}", "LanceRefs", with_gen(c) if name in gen_from_mc else c, 4, 3000)
+              for name, c, _ in mc_runs}
     fut_dev = {}
-    for dev, inv, ops, steps in AS_BUILT:
-        c = cfg("a-ab-a/b", steps, ops, devs=[dev], invs="TypeOK" + (" " + inv if inv in ALL_INVS else ""),
-                props="PROPERTIES " + inv if inv not in ALL_INVS else "")
+    for dev, inv, names, ops, steps, ncl in AS_BUILT:
+        isinv = inv == "RefResolvesW"
+        c = cfg(names, steps, ops, devs=[dev], nclones=ncl, tags=(), invs="TypeOK" + (" " + inv if isinv else ""),
+                props="" if isinv else "PROPERTIES " + inv)
         fut_dev[(dev, inv)] = pool.submit(vlib.tlc_mc, f"{prop}-dev-{dev}-{inv}", "LanceRefs", c, 2, 1500, False)
 
     # 2. scenario generation ---------------------------------------------------------------------------
@@ -219,35 +248,27 @@ def run(prop, tier, replay):
         g = c.replace("INVARIANTS " + ALL_INVS, "INVARIANTS GenPrint").replace(ALL_PROPS, "")
         return vlib.tlc_gen(f"{prop}-{name}", "LanceRefs", g, tag="SCN", workers=1, timeout=1500, simulate=simulate)
     if quick:
-        gens = [("x-a", cfg("a-ab-a/b", 4, ALL_OPS), None, 170), ("x-b", cfg("a/b-a/bc-b", 4, ALL_OPS), None, 170),
-                ("s-bw", cfg("ab-a/b-a/bc", 6, ["write", "branch"]), "num=150", 120),
+        gens = [("s-bw", cfg("ab-a/b-a/bc", 6, ["write", "branch"]), "num=150", 120),
                 ("s-all", cfg("a-a/b-b", 7, ALL_OPS), "num=150", 120)]
     else:
-        gens = [("x-a", cfg("a-ab-a/b", 4, ALL_OPS), None, 1500), ("x-b", cfg("a/b-a/bc-b", 4, ALL_OPS), None, 1500),
-                ("x-c", cfg("ab-a/b-a/bc", 4, ALL_OPS), None, 1500),
-                ("s-bw", cfg("a-ab-a/b-a/bc", 7, ["write", "branch"]), "num=1500", 1500),
+        gens = [("s-bw", cfg("a-ab-a/b-a/bc", 7, ["write", "branch"]), "num=1500", 1500),
                 ("s-bwc", cfg("a-a/b-a/bc-b", 8, ["write", "branch", "cleanup"]), "num=1500", 1500),
                 ("s-all", cfg("all", 9, ALL_OPS, nclones=2, tags=("t1", "t2")), "num=2500", 2500)]
     fut_gen = {name: pool.submit(gen, name, c, sim) for name, c, sim, _ in gens}
 
-    # 3a. names: enumerate, record, validate --------------------------------------------------------------
-    binary, build_s = fut_build.result()
-    maxlen = 5 if quick else 6
-    nshards = 2 if quick else 8
-    wd = vlib.workdir(f"{prop}-traces")
-
-    def names_shard(k):
-        tf = os.path.join(wd, f"names{k}.ndjson")
-        vlib.harness_run(binary, ["--mode", "names", "--alphabet", json.dumps(ALPHABET), "--maxlen", maxlen,
-                                  "--shard", k, "--shards", nshards, "--out", tf])
-        v = vlib.tlc_trace(f"{prop}-names-{k}", "Trace_LanceRefs", TRACE_CFG.format(mode="names"), tf, timeout=3000, xmx="6g")
-        return tf, v
     fut_names = [pool.submit(names_shard, k) for k in range(nshards)]
 
     # 3b. histories ------------------------------------------------------------------------------------------
     scenarios, gen_info, exhaustive_hist = [], [], True
-    for name, c, sim, cap in gens:
-        hists, stats = fut_gen[name].result()
+    mc_results = {name: fut_mc[name].result() for name, _, _ in mc_runs}
+    phases["model_checked"] = round(time.time() - t0, 1)
+    sources = [(name, None, gen_from_mc[name]) for name in gen_from_mc] + [(name, sim, cap) for name, _, sim, cap in gens]
+    for name, sim, cap in sources:
+        if name in gen_from_mc:
+            hists = vlib._printed(open(mc_results[name]["out"]).read(), "SCN")
+            stats = {"wall_s": mc_results[name]["wall_s"], "distinct": mc_results[name].get("distinct")}
+        else:
+            hists, stats = fut_gen[name].result()
         if not hists:
             raise vlib.ToolError(f"TLC generated no scenario ({name})")
         # simulation may repeat a history: keep distinct ones
@@ -259,12 +280,24 @@ def run(prop, tier, replay):
                          "histories": len(hists), "distinct": len(uniq), "replayed": len(chosen), "tlc": stats})
         for h in chosen:
             scenarios.append(hist_to_scenario(h, len(scenarios) + 1, rnd, name))
+    # the counterexamples of the as-built configurations are replayed too (they re-confirm, or stop confirming,
+    # each known deviation on the real code on every run)
+    dev_info = []
+    for (dev, inv), fut in fut_dev.items():
+        r = fut.result()
+        wit = vlib._printed(open(r["out"]).read(), "WIT")
+        dev_info.append({"deviation": dev, "expected_to_break": inv, "broke": r["violated"], "distinct": r.get("distinct"),
+                         "witness": wit[0] if wit else None})
+        for h in wit[:1]:
+            scenarios.append(hist_to_scenario(h, len(scenarios) + 1, rnd, f"witness:{dev}:{inv}",
+                                              via_mode="main" if dev == "CloneReadsHandleLocation" else "src"))
+    phases["deviations_checked"] = round(time.time() - t0, 1)
     scn_file = os.path.join(wd, "scenarios.ndjson")
     with open(scn_file, "w") as f:
         for s in scenarios:
             f.write(json.dumps(s) + "\n")
     hshards = 6 if quick else 8
-    scratch = os.path.join(vlib.WORK, f"refs-scratch-{os.getpid()}")
+    scratch = os.path.join(vlib.WORK, f"refs-scratch-{os.getpid()}")   # local file system (the tree listing walks it)
 
     def hist_shard(k):
         tf = os.path.join(wd, f"hist{k}.ndjson")
@@ -273,13 +306,14 @@ def run(prop, tier, replay):
         shutil.rmtree(f"{scratch}-{k}", ignore_errors=True)
         v = vlib.tlc_trace(f"{prop}-hist-{k}", "Trace_LanceRefs", TRACE_CFG.format(mode="hist"), tf, timeout=3000, xmx="6g")
         return tf, v
+    phases["scenarios_ready"] = round(time.time() - t0, 1)
     fut_hist = [pool.submit(hist_shard, k) for k in range(hshards)]
 
     # 4. collect ----------------------------------------------------------------------------------------------
     states = trans = 0
     mc_info = []
     for name, c, ops in mc_runs:
-        r = fut_mc[name].result()
+        r = mc_results[name]
         if r["violated"]:
             out.report({"spec": "LanceRefs", "invariant": r["violated"]},
                        f"the intended design violates {r['violated']} (see {r['out']})", {"cfg": c})
@@ -291,13 +325,10 @@ def run(prop, tier, replay):
         trans += r.get("generated", 0)
         mc_info.append({"cfg": name, "distinct": r.get("distinct"), "generated": r.get("generated"),
                         "depth": r.get("depth"), "wall_s": r["wall_s"]})
-    dev_info = []
-    for (dev, inv), fut in fut_dev.items():
-        r = fut.result()
-        dev_info.append({"deviation": dev, "expected_to_break": inv, "broke": r["violated"], "distinct": r.get("distinct")})
-        if r["violated"] != inv:
-            raise vlib.ToolError(f"as-built deviation {dev} does not break {inv} on the model (got {r['violated']}): "
-                                 f"the finding signature is no longer tied to the specification ({r['out']})")
+    for d in dev_info:
+        if d["broke"] != d["expected_to_break"]:
+            raise vlib.ToolError(f"as-built deviation {d['deviation']} does not break {d['expected_to_break']} on the model "
+                                 f"(got {d['broke']}): the finding signature is no longer tied to the specification")
 
     # names
     n_events = n_bad = 0
@@ -364,6 +395,7 @@ def run(prop, tier, replay):
         if counts.get(need, 0) == 0:
             raise vlib.ToolError(f"vacuous history run: no {need} event was judged ({counts})")
     accepted_scn = len(scenarios) - len(bad_scn)
+    phases["validated"] = round(time.time() - t0, 1)
     rc = out.finish()
     vlib.write_evidence(prop, tier, "model_checking", {
         "states": states, "transitions": trans,
@@ -380,6 +412,6 @@ def run(prop, tier, replay):
         if not exhaustive_hist else "exhaustive for the name universe and for the generated history set",
         "names": {"maxlen": maxlen, "alphabet": ALPHABET, "universe": universe, "events": n_events, "counts": names_counts},
         "histories": {"scenarios": len(scenarios), "accepted": accepted_scn, "events": events, "counts": counts, "generation": gen_info},
-        "model_runs": mc_info, "as_built_deviation_runs": dev_info, "harness_build_s": build_s,
+        "model_runs": mc_info, "as_built_deviation_runs": dev_info, "harness_build_s": build_s, "phases_s": phases,
     }, time.time() - t0, len(out.violations), assumptions)
     return rc
